@@ -90,6 +90,7 @@ type c08Case struct {
 	Fields   []c08Field `json:"fields,omitempty"`
 	Fields2  []c08Field `json:"fields2,omitempty"` // param+query: the query string (Fields = path params), bound by c.Bind
 	Prepop   bool       `json:"prepop,omitempty"`  // struct: destination pre-populated with non-zero sentinels
+	Default  bool       `json:"default,omitempty"` // vb: the binder is used as its constructor returns it, FailFast is never called before the first op (documented default: enabled)
 }
 
 // ---------- destination types of the harness ----------
@@ -135,6 +136,104 @@ func (u *c08Multi) UnmarshalParams(values []string) error {
 	return nil
 }
 
+// Named types of builtin kind with their own unmarshaler, whose meaning differs from strconv's:
+// bind.go must convert them with their method everywhere (scalar, pointer, every slice element).
+type c08Hex int32 // hexadecimal, 32 bits (TextUnmarshaler)
+
+func (h *c08Hex) UnmarshalText(b []byte) error {
+	n, err := strconv.ParseInt(string(b), 16, 32)
+	if err != nil {
+		return err
+	}
+	*h = c08Hex(n)
+	return nil
+}
+
+type c08Pct uint8 // decimal, 0..100 only (BindUnmarshaler)
+
+func (p *c08Pct) UnmarshalParam(s string) error {
+	n, err := strconv.ParseUint(s, 10, 8)
+	if err != nil {
+		return err
+	}
+	if n > 100 {
+		return errors.New("percent out of range")
+	}
+	*p = c08Pct(n)
+	return nil
+}
+
+type c08Flag bool // on / off (BindUnmarshaler); strconv's spellings are rejected
+
+func (f *c08Flag) UnmarshalParam(s string) error {
+	switch s {
+	case "on":
+		*f = true
+	case "off":
+		*f = false
+	default:
+		return errors.New("flag must be on or off")
+	}
+	return nil
+}
+
+type c08Word string // stored upper-cased; `!…` rejected (TextUnmarshaler)
+
+func (w *c08Word) UnmarshalText(b []byte) error {
+	if err := c08UnmErr(string(b)); err != nil {
+		return err
+	}
+	*w = c08Word(strings.ToUpper(string(b)))
+	return nil
+}
+
+type c08Ratio float64 // `a/b` (BindUnmarshaler)
+
+func (x *c08Ratio) UnmarshalParam(s string) error {
+	a, b, ok := strings.Cut(s, "/")
+	if !ok {
+		return errors.New("ratio must be a/b")
+	}
+	n, err1 := strconv.ParseInt(a, 10, 32)
+	d, err2 := strconv.ParseInt(b, 10, 32)
+	if err1 != nil || err2 != nil || d == 0 {
+		return errors.New("bad ratio")
+	}
+	*x = c08Ratio(float64(n) / float64(d))
+	return nil
+}
+
+// index = the model's `Elem.named k`
+var c08NamedTypes = []reflect.Type{reflect.TypeOf(c08Hex(0)), reflect.TypeOf(c08Pct(0)), reflect.TypeOf(c08Flag(false)),
+	reflect.TypeOf(c08Word("")), reflect.TypeOf(c08Ratio(0))}
+
+func c08NamedIdx(t reflect.Type) int {
+	for i, x := range c08NamedTypes {
+		if x == t {
+			return i
+		}
+	}
+	return -1
+}
+
+// c08NamedParse: what the type's own method makes of the text (model-free denotation)
+func c08NamedParse(t reflect.Type, s string) (string, bool) {
+	v := reflect.New(t)
+	var err error
+	switch u := v.Interface().(type) {
+	case echo.BindUnmarshaler:
+		err = u.UnmarshalParam(s)
+	case encoding.TextUnmarshaler:
+		err = u.UnmarshalText([]byte(s))
+	default:
+		return "", false
+	}
+	if err != nil {
+		return "", false
+	}
+	return c08Canon(v.Elem(), famNamed, 0), true
+}
+
 var (
 	c08MultiT = reflect.TypeOf(c08Multi{})
 	c08DurT   = reflect.TypeOf(time.Duration(0))
@@ -155,7 +254,8 @@ const (
 	famUnm
 	famUnix
 	famByte
-	famTime // Time / MustTime / Times / MustTimes; the type index is the number of the layout within the case
+	famTime  // Time / MustTime / Times / MustTimes; the type index is the number of the layout within the case
+	famNamed // named type of builtin kind with its own unmarshaler; the type index is its position in c08NamedTypes
 )
 
 // c08Classify maps a Go element type to the model's (family, type index).  structMode: the
@@ -179,6 +279,9 @@ func c08Classify(name string, E reflect.Type, structMode bool) (fam, ty int, ok 
 	}
 	if E == c08UnmT || E == c08TextT {
 		return famUnm, 0, true
+	}
+	if k := c08NamedIdx(E); k >= 0 {
+		return famNamed, k, true
 	}
 	switch E.Kind() {
 	case reflect.Int8:
@@ -504,6 +607,9 @@ func c08DenoteL(fam int, E reflect.Type, layout, s string) (string, bool) {
 
 // c08Ext: the answers of the parsers the model does not implement
 func c08Ext(k int, s string) (string, bool) {
+	if k >= 200 && k-200 < len(c08NamedTypes) {
+		return c08NamedParse(c08NamedTypes[k-200], s)
+	}
 	switch k {
 	case 32, 64:
 		f, err := strconv.ParseFloat(s, k)
@@ -554,6 +660,8 @@ func c08Denote(fam int, E reflect.Type, s string) (string, bool) {
 			return "", false
 		}
 		return s, true
+	case famNamed:
+		return c08NamedParse(E, s)
 	}
 	return "", false
 }
@@ -621,6 +729,8 @@ func (t *c08Table) addFor(fam int, E reflect.Type, s string) {
 		t.add(E.Bits(), s)
 	case famDur:
 		t.add(1, s)
+	case famNamed:
+		t.add(200+c08NamedIdx(E), s)
 	}
 }
 
@@ -753,13 +863,23 @@ func c08RunVB(c *c08Case) (res Result) {
 		}
 		return err
 	}
-	b.FailFast(c.FailFast)
+	startFF := c.FailFast
+	if c.Default {
+		startFF = true // "FailFast … Enabled by default", for every constructor
+	} else {
+		b.FailFast(c.FailFast)
+	}
 
 	tbl := &c08Table{}
 	ops := []string{"0", wBool(c.FailFast), wInt(len(c.Ops))}
+	if c.Default {
+		ctor := map[string]string{"": "0", "query": "0", "path": "1", "form": "2", "multipart": "2"}[c.Binder]
+		ops = []string{"3", ctor, wInt(len(c.Ops))}
+		tags = append(tags, "ctor-default:"+c.Binder)
+	}
 	var obs []string
 	pending := 0
-	failFast := c.FailFast
+	failFast := startFF
 	nontrivial := false
 	hadErrThenCall := false
 	modelOK := true
@@ -1160,6 +1280,12 @@ func c08Catalogue() (reflect.Type, []c08FieldInfo) {
 		}
 		// destinations implementing only the multi-value interface UnmarshalParams([]string)
 		all = append(all, ft{"mu", c08MultiT}, ft{"pmu", reflect.PtrTo(c08MultiT)})
+		// named types of builtin kind with their own unmarshaler: T, *T, []T, []*T, *[]T
+		for i, n := range []string{"hx", "pc", "fl", "wd", "rt"} {
+			t := c08NamedTypes[i]
+			all = append(all, ft{n, t}, ft{"p" + n, reflect.PtrTo(t)}, ft{"l" + n, reflect.SliceOf(t)},
+				ft{"lp" + n, reflect.SliceOf(reflect.PtrTo(t))}, ft{"pl" + n, reflect.PtrTo(reflect.SliceOf(t))})
+		}
 		var fields []reflect.StructField
 		c08CatByN = map[string]c08FieldInfo{}
 		for i, f := range all {
@@ -1512,7 +1638,7 @@ func c08RunStruct(c *c08Case) (res Result) {
 				okState = true
 			}
 		}
-		if info.Wrap == 1 && init.state == "nil" && state == "one" && vals[0] == c08ZeroCanon(info.Fam) {
+		if info.Wrap == 1 && init.state == "nil" && state == "one" && vals[0] == c08ZeroCanonOf(info) {
 			okState = true
 		}
 		if info.Wrap == 4 && init.state == "nil" && state == "ptrnil" {
@@ -1539,6 +1665,13 @@ func c08RunStruct(c *c08Case) (res Result) {
 		fail("every value denotes a value that fits its field but Bind failed: %v", err)
 	}
 	return Result{Ops: line, Obs: strings.Join(obs, " "), Oracle: oracle, Tags: tags, Nontrivial: nontrivial}
+}
+
+func c08ZeroCanonOf(info c08FieldInfo) string {
+	if info.Fam == famNamed {
+		return c08Canon(reflect.Zero(info.E), famNamed, 0)
+	}
+	return c08ZeroCanon(info.Fam)
 }
 
 func c08ZeroCanon(fam int) string {
